@@ -1,5 +1,18 @@
+//! C08 (authorization succeeds iff the applicable access rule is satisfied): reference evaluator
+//! of access-rule trees + manifest-level auth-zone model, checked against protected calls on the
+//! monitored ledger.
+mod c08;
+mod rules;
+mod zone;
+
 fn main() {
     let args = rv_common::parse_args();
-    eprintln!("no check named {}", args.prop);
-    std::process::exit(2);
+    let code = match args.prop.as_str() {
+        "C08" => c08::run(&args),
+        other => {
+            eprintln!("rv-auth: no check named {other}");
+            2
+        }
+    };
+    std::process::exit(code);
 }
